@@ -29,7 +29,8 @@ LEVEL_TEXT = (
     "Crash points are enumerated exhaustively per sampled history in the thorough tier (quick: the structurally interesting "
     "ones plus two random); histories, configurations and layouts are sampled. Every continuation is compared with the "
     "uninterrupted run bit-for-bit in parameters and in the complete optimizer state after every remaining step. Storage "
-    "faults must make load_distributed_state_dict raise."
+    "faults must make load_distributed_state_dict raise. After every restore the optimizer's param_groups are compared with "
+    "those of the stopped optimizer."
 )
 LEVEL_NOTE = (
     "The simulated disk deep-clones tensors at save time (the state dict returns live tensors); a share of runs round-trips "
@@ -38,7 +39,8 @@ LEVEL_NOTE = (
 BUDGET = {"quick": 55.0, "thorough": 600.0}
 RULE = (
     "seeded (configuration: Shampoo/SOAP, grafting types, momentum, filtering, 1-3 groups, blocked parameters, blocks without "
-    "Kronecker factor x history of <= 16 (thorough 30) events with absent gradients and scheduler writes x layout serial|ddp|fsdp|hsdp|fully_shard|hybrid_shard); "
+    "Kronecker factor with and without other state x history of <= 16 (thorough 30) events with absent gradients, scheduler writes "
+    "(lr, weight decay, momentum, the preconditioning schedule itself) x layout serial|ddp|fsdp|hsdp|fully_shard|hybrid_shard); "
     "evaluations = histories; each history contributes its crash points (counted in probes.crash_points). Non-trivial = at "
     "least one crash point with >= 1 remaining step compared; distinct = distinct (config features, layout, crash-point phase set)"
 )
